@@ -5,8 +5,8 @@ Executable model of the build-directory lifecycle of option state (property C08)
 
 What is modelled, construct by construct
 ----------------------------------------
-* **The persisted state** `Dir`: the two option files of the source tree (`top`, `sub` — a top-level project and
-  one subproject `sub`), `meson-private/coredata.dat` (`core`: the pickled `OptionStore`, `CoreData.options_files`
+* **The persisted state** `Dir`: the option files of the source tree (`top`, `sub` — a top-level project and a
+  subproject `sub` — and any number of further subprojects `more`), `meson-private/coredata.dat` (`core`: the pickled `OptionStore`, `CoreData.options_files`
   — the recorded option-file hashes, rendered as the recorded *content* —, `CoreData.initialized_subprojects`),
   `meson-private/cmd_line.txt` (`cmdline`: the `[options]` section in file order) and
   `meson-info/intro-buildoptions.json` (`intro`: what `meson introspect --buildoptions` prints).
@@ -57,6 +57,19 @@ structure Core where
   initialized : List Str := []
   deriving DecidableEq, Repr, Inhabited
 
+/-- a further subproject of the test tree (`subproject(name)` calls after `subproject('sub')`, in list order): its
+option file, which file name exists, `project(name, default_options:)` and `subproject(name, default_options:)` -/
+structure Extra where
+  name : Str
+  defs : Defs
+  file : Option Bool := some false
+  pdo : Dict := []
+  spcall : Dict := []
+  deriving DecidableEq, Repr, Inhabited
+
+/-- the declarations the interpreter reads: none when the option file does not exist -/
+def Extra.eff (x : Extra) : Defs := if x.file.isSome then x.defs else []
+
 structure Dir where
   top : Defs
   sub : Defs
@@ -69,6 +82,9 @@ structure Dir where
   pdoTop : Dict := []
   pdoSub : Dict := []
   spcall : Dict := []
+  /-- the subprojects after `sub` (any number; several projects may declare options of the same name and the same
+  definition) -/
+  more : List Extra := []
   core : Option Core := none
   /-- coredata.dat exists but cannot be unpickled (`core = none` then): `Environment.__init__` regenerates the
   configuration from cmd_line.txt on the next `setup --reconfigure` -/
@@ -87,6 +103,13 @@ def Dir.emptied (d : Dir) : Dir := { d with core := none, corrupt := false, cmdl
 /-- the persisted triple of the property statement: coredata, cmd_line.txt, option files (and the introspection file) -/
 def Dir.fresh (top sub : Defs) : Dir := { top := top, sub := sub }
 
+/-- an edit of the option file of a further subproject -/
+inductive XEdit where
+  | set (name : Str) (sp : ObjSpec)
+  | remove (name : Str)
+  | file (f : Option Bool)
+  deriving Repr, Inhabited
+
 inductive Cmd where
   | setup (d : Dict)
   | configure (args : List (Key × Option Val))
@@ -99,6 +122,8 @@ inductive Cmd where
   /-- delete (`none`), re-create or rename (`some false` = meson.options, `some true` = meson_options.txt) the option
   file of the top-level project / the subproject -/
   | fileSet (inSub : Bool) (f : Option Bool)
+  /-- the same three edits on the option file of a further subproject (`Dir.more`), addressed by its name -/
+  | extra (proj : Str) (e : XEdit)
   deriving Repr, Inhabited
 
 /-- what the user sees: exit status, and for a (re)configuration the `get_option()` values the build files read -/
@@ -150,9 +175,20 @@ def presentPdo (defs : Defs) (pdo : Dict) : Dict :=
 def condIfDeclared (defs : Defs) (proj name : Str) : M Bool :=
   if defs.any (fun q => q.1 == name) then condOption proj name else M.pure false
 
+/-- `subproject(x.name)` for the further subprojects, in order: option file, (first time only) default_options and
+the command line, the `message(get_option(n))` lines -/
+def interpExtras (first : Bool) (initialized : List Str) (cmd : Dict) : List Extra → M (List (Str × Str × Val))
+  | [] => M.pure []
+  | x :: r =>
+    M.bind (loadOptionFile x.name x.eff) (fun _ =>
+    M.bind (if first || !(initialized.contains x.name)
+            then initSub x.name (presentPdo x.eff x.spcall) (presentPdo x.eff x.pdo) cmd [] else M.pure ()) (fun _ =>
+    M.bind (readAll x.name (x.eff.map (·.1) ++ [sWarningLevel])) (fun m =>
+    M.bind (interpExtras first initialized cmd r) (fun l => M.pure (m ++ l)))))
+
 /-- `intr.run()` on the test tree as a store computation -/
-def interpProg (first : Bool) (initialized : List Str) (top sub : Defs) (pdoTop pdoSub spcall cmd : Dict) :
-    M (List (Str × Str × Val) × Bool) := do
+def interpProg (first : Bool) (initialized : List Str) (top sub : Defs) (pdoTop pdoSub spcall cmd : Dict)
+    (more : List Extra := []) : M (List (Str × Str × Val) × Bool) := do
   -- project('top'): option file, then (first invocation only) default_options and the command line
   loadOptionFile [] top
   if first then initTop (presentPdo top pdoTop) cmd [] else M.pure ()
@@ -164,15 +200,17 @@ def interpProg (first : Bool) (initialized : List Str) (top sub : Defs) (pdoTop 
   loadOptionFile sSub sub
   if first || !(initialized.contains sSub) then initSub sSub (presentPdo sub spcall) (presentPdo sub pdoSub) cmd [] else M.pure ()
   let m2 ← readAll sSub (sub.map (·.1) ++ [sWarningLevel])
-  M.pure (m1 ++ m2, late)
+  let m3 ← interpExtras first initialized cmd more
+  M.pure (m1 ++ m2 ++ m3, late)
 
 def interpret (first : Bool) (c : Core) (d : Dir) (cmd : Dict) : Except Err Interp :=
   let top := d.topEff
   let sub := d.subEff
-  match interpProg first c.initialized top sub d.pdoTop d.pdoSub d.spcall cmd c.store with
+  match interpProg first c.initialized top sub d.pdoTop d.pdoSub d.spcall cmd d.more c.store with
   | (.ok (msgs, late), s') =>
-    .ok { core := { store := s', optFiles := [([], d.topFile, top), (sSub, d.subFile, sub)],
-                    initialized := setAdd sSub c.initialized },
+    .ok { core := { store := s', optFiles := [([], d.topFile, top), (sSub, d.subFile, sub)] ++
+                      d.more.map (fun x => (x.name, x.file, x.eff)),
+                    initialized := (d.more.map (·.name)).foldl (fun acc n => setAdd n acc) (setAdd sSub c.initialized) },
           msgs := msgs, late := late }
   | (.error e, _) => .error e
 
@@ -184,7 +222,10 @@ def unusedOk (s : Store) (known : List Str) (k : Key) : Bool :=
    | _ => false) ||
   (k.sub.isNone && s.isProjectOption k.asRoot)
 
-def checkUnused (s : Store) (cmd : Dict) : Bool := cmd.all (fun p => unusedOk s [sSub] p.1)
+def checkUnused (s : Store) (cmd : Dict) (known : List Str := [sSub]) : Bool := cmd.all (fun p => unusedOk s known p.1)
+
+/-- the subprojects of the tree -/
+def Dir.known (d : Dir) : List Str := sSub :: d.more.map (·.name)
 
 /-! ## cmd_line.txt -/
 
@@ -215,7 +256,7 @@ before (`option_records` in `_generate`), or removed -/
 def commitFirst (d : Dir) (selfOpts user : Dict) : Except Err Interp → Dir × Out
   | .error e => (d, .failed e false)
   | .ok r =>
-    if !(checkUnused r.core.store user) then (d, .failed .meson false)     -- dumped, then unlinked again
+    if !(checkUnused r.core.store user d.known) then (d, .failed .meson false)     -- dumped, then unlinked again
     else if r.late then (d, .failed .meson true)     -- everything written is taken back (see below)
     else
       ({ d with core := some r.core, corrupt := false, cmdline := some selfOpts, intro := some r.core.store }, .ok r.msgs)
@@ -231,7 +272,7 @@ exception coredata.dat is restored from coredata.dat.prev -/
 def commitReconf (d : Dir) (newD user : Dict) : Except Err Interp → Dir × Out
   | .error e => (d, .failed e false)
   | .ok r =>
-    if !(checkUnused r.core.store user) then (d, .failed .meson false)   -- dumped, rolled back from `.prev`
+    if !(checkUnused r.core.store user d.known) then (d, .failed .meson false)   -- dumped, rolled back from `.prev`
     else
       let cl := match d.cmdline with | some f => updateCmd f (dArgs newD) | none => newD
       if r.late then (d, .failed .meson true)         -- coredata.dat.prev, cmd_line.txt and the intro file are put back
@@ -241,9 +282,15 @@ def commitReconf (d : Dir) (newD user : Dict) : Except Err Interp → Dir × Out
 /-- `meson setup --reconfigure -D…` on a directory with a loadable coredata.dat: the new arguments are applied by
 `set_from_configure_command` before the build files (and the option files) are read -/
 def reconfigure (d : Dir) (c : Core) (newD : Dict) : Dir × Out :=
-  match setFromConfigure (dArgs newD) false c.store with
+  match setFromConfigureCommand (dArgs newD) c.store with
   | (.error e, _) => (d, .failed e false)
   | (.ok _, s1) => commitReconf d newD (userOpts d newD) (interpret false { c with store := s1 } d (userOpts d newD))
+
+/-- file name state / declarations of project `p` (`[]` = top level, a name of `more`, else `sub`) -/
+def Dir.fileOf (d : Dir) (p : Str) : Option Bool :=
+  if p == [] then d.topFile else match d.more.find? (fun x => x.name == p) with | some x => x.file | none => d.subFile
+def Dir.defsOf (d : Dir) (p : Str) : Defs :=
+  if p == [] then d.top else match d.more.find? (fun x => x.name == p) with | some x => x.defs | none => d.sub
 
 /-- `Conf.__init__` (mconf.py:92-114), one entry of `options_files`: when the recorded file still exists it is
 re-read if its hash differs; otherwise (no file recorded, or the recorded path is gone: deleted or renamed) mconf
@@ -252,8 +299,8 @@ re-reads that with the entry's subproject name, or calls `update_project_options
 def reloadChanged (d : Dir) : List (Str × Option Bool × Defs) → M (List (Str × Option Bool × Defs))
   | [] => M.pure []
   | (p, recF, rec) :: r =>
-    let curF := if p == [] then d.topFile else d.subFile
-    let cur := if p == [] then d.top else d.sub
+    let curF := d.fileOf p
+    let cur := d.defsOf p
     if recF.isSome && curF == recF then
       if cur != rec then
         M.bind (loadOptionFile p cur) (fun _ => M.bind (reloadChanged d r) (fun l => M.pure ((p, recF, cur) :: l)))
@@ -280,11 +327,16 @@ def configure (d : Dir) (args : List (Key × Option Val)) : Dir × Out :=
     if args.isEmpty then (d, .ok []) else         -- print only
     match reloadChanged d c.optFiles c.store with
     | (.error e, _) => (d, .failed e false)
-    | (.ok files, s1) => commitConf d c args files (setFromConfigure args false s1)
+    | (.ok files, s1) => commitConf d c args files (setFromConfigureCommand args s1)
 
 def editDefs (defs : Defs) (name : Str) : Option ObjSpec → Defs
   | some sp => ainsert name sp defs
   | none => aerase name defs
+
+def XEdit.apply (x : Extra) : XEdit → Extra
+  | .set n sp => { x with defs := editDefs x.defs n (some sp) }
+  | .remove n => { x with defs := editDefs x.defs n none }
+  | .file f => { x with file := f }
 
 def step (d : Dir) : Cmd → Dir × Out
   | .setup newD =>
@@ -292,14 +344,17 @@ def step (d : Dir) : Cmd → Dir × Out
     | some _ => configure d (dArgs newD)        -- "Directory already configured": mconf.run_impl
     | none =>
       if d.corrupt then (d, .failed .meson false)  -- mconf.run_impl -> build.load -> "Coredata file … is corrupted"
-      else firstInvocation d newD
+      -- `MesonApp.generate`: no coredata.dat — a partial build directory may still hold cmd_line.txt (a `--wipe`
+      -- that failed): it is read into `self.options` before the configuration is created
+      else firstInvocation d (userOpts d newD)
   | .reconfigure newD =>
     match d.core with
     | some c => reconfigure d c newD
     | none =>
       -- a corrupt coredata.dat: `Environment.__init__` merges cmd_line.txt into `self.options` and starts from scratch;
       -- `coredata.save` copies the corrupt file to `.prev`, so a failure puts the corrupt file back
-      if d.corrupt then firstInvocation d (userOpts d newD) else firstInvocation d newD
+      -- (and without coredata.dat `MesonApp.generate` reads cmd_line.txt into `self.options` itself)
+      firstInvocation d (userOpts d newD)
   | .wipe newD =>
     -- MesonApp.__init__: read_cmd_line_file into self.options, empty the directory, restore cmd_line.txt
     firstInvocation { d with core := none, corrupt := false, intro := none }
@@ -313,6 +368,8 @@ def step (d : Dir) : Cmd → Dir × Out
     (if inSub then { d with sub := editDefs d.sub name (some sp) } else { d with top := editDefs d.top name (some sp) }, .ok [])
   | .editRemove inSub name =>
     (if inSub then { d with sub := editDefs d.sub name none } else { d with top := editDefs d.top name none }, .ok [])
+  | .extra proj e =>
+    ({ d with more := d.more.map (fun x => if x.name == proj then e.apply x else x) }, .ok [])
 
 /-- directory after a history -/
 def runHist (d : Dir) : List Cmd → Dir
